@@ -5,6 +5,7 @@
 -/
 import N2V.Lemmas.LoadInv
 import N2V.Lemmas.SchedWantInv
+import N2V.Lemmas.SchedWantTerm
 import N2V.Model.Work
 namespace N2V.Work
 open N2V N2V.Load
@@ -40,6 +41,28 @@ theorem schedGraph_ok (g : GraphM) (inv : GInv g) : Sched.GraphOK (schedGraph g)
       simp only [] at h
       obtain ⟨fm, hf, hd⟩ := inv.ins b bm hb f (List.mem_of_mem_take h)
       rw [hf]; exact hd
+
+/-- Input lists of a loaded graph name files of the graph (the hypothesis of the want phase's
+    termination theorem). -/
+theorem schedGraph_filesOK (g : GraphM) (inv : GInv g) : Sched.FilesOK (schedGraph g) := by
+  intro b hb f hf
+  simp only [schedGraph, List.getElem?_toArray, List.size_toArray] at hb hf ⊢
+  cases hbm : g.builds[b]? with
+  | none =>
+    rw [hbm] at hf
+    have hd1 : (default : Sched.Build).ordering = [] := rfl
+    have hd2 : (default : Sched.Build).validation = [] := rfl
+    simp only [hd1, hd2] at hf
+    simp at hf
+  | some bm =>
+    rw [hbm] at hf
+    simp only [] at hf
+    have hmem : f ∈ bm.ins := by
+      rcases List.mem_append.mp hf with h | h
+      · exact List.mem_of_mem_take h
+      · exact List.mem_of_mem_drop h
+    obtain ⟨fm, hfm, _⟩ := inv.ins b bm hbm f hmem
+    exact (List.getElem?_eq_some_iff.mp hfm).1
 
 theorem intern_inv (e : Env) (name : Bytes) (inv : GInv e.g) : GInv (intern e name).1.g :=
   (idFromCanonical_spec e.g name inv).1
